@@ -206,7 +206,15 @@ async fn handle(
         } => handle_stream_append(&mut store, req, topic, ttl, context_id).await,
 
         Routes::CasGet(hash) => {
-            let reader = store.cas_reader(hash).await?;
+            // An unknown hash must be answered (404), not propagate out of the service, which
+            // makes hyper drop the connection without a response.
+            let reader = match store.cas_reader(hash).await {
+                Ok(reader) => reader,
+                Err(cacache::Error::IoError(e, _)) if e.kind() == std::io::ErrorKind::NotFound => {
+                    return response_404();
+                }
+                Err(e) => return response_500(e.to_string()),
+            };
             let stream = ReaderStream::new(reader);
 
             let stream = stream.map(|frame| {
